@@ -110,6 +110,14 @@ def print_clause_layer(ctx, lk, conn, entries, options):
         ctx.evaluations += 1
         ctx.count('print-clauses')
         ctx.nontrivial_hashes.add(hash((lk, text)))
+        # the order of ALL directives as printed (the loader re-sorts what it reads, the text does not lie)
+        import re as _re
+        heads = [h for h in _re.findall(r'^([0-9]{4}-[0-9]{2}-[0-9]{2}) ([^ \n]+)', out.getvalue(), _re.M) if h[1] != 'P']
+        want_heads = [(e.date.isoformat(), e.flag if isinstance(e, data.Transaction) else type(e).__name__.lower()) for e in want
+                      if getattr(e, 'flag', None) != 'P']
+        if heads != want_heads:
+            ctx.record_violation('print-order', '%s: directives printed in another order than prepared; first difference %r' % (
+                text, next(((a, b) for a, b in zip(heads, want_heads) if a != b), (len(heads), len(want_heads)))), payload={'statement': text})
         if key(reloaded) != key(want):
             ctx.record_violation('print-ignores-clauses', '%s: %d transactions printed, %d prepared; first difference %r' % (
                 text, len(key(reloaded)), len(key(want)),
